@@ -9,28 +9,35 @@ type gparam struct {
 	Go     string
 	T      LT   // "" = dropped (context.Context, …)
 	Oracle bool // not a Go parameter: the result of a store read, bound by Oracles
+	// helpers translated on demand: the caller passes the SAME object for this parameter and for
+	// the earlier parameter named here (`f(auction, ba)` with `ba := auction.(*T)`): inside the
+	// helper the two names denote one object, as they do in Go
+	AliasOf string
 }
 
 type Unit struct {
-	Name       string // Lean definition (in namespace Fundraising.Gen)
-	Pkg        string
-	Recv       string // Go receiver base type ("" for a plain function)
-	RecvLean   LT     // Lean type of the receiver ("" for a plain function): registry key
-	Func       string
-	Params     []gparam
-	Ret        []LT
-	Named      []string            // named results, in order (for naked returns)
-	NamedTypes map[string]LT       // their Lean types
-	Group      string              // Generated/Code/<Group>.lean
-	Calls      map[string]callSpec // rendered callee -> oracle value and/or recorded effect
-	Idents     map[string]V        // package-level variables read by the unit (oracles)
-	EffectsOn  bool
-	Alias      map[string]aliasSpec
-	MapKeys    map[string]string // rendered map expression ranged over -> oracle parameter holding its keys
-	JoinIfs    bool              // translate jump-free `if`s as joins instead of duplicating the continuation
-	StoreOn    bool              // the unit threads an explicit store value (Tables/GoStore.lean)
-	TypeNames  map[string]LT     // per-unit Go type -> Lean type (for map literals), overriding goTypeNames
-	failed     string            // set when the unit turned out not to be translatable
+	Name        string // Lean definition (in namespace Fundraising.Gen)
+	Pkg         string
+	Recv        string // Go receiver base type ("" for a plain function)
+	RecvLean    LT     // Lean type of the receiver ("" for a plain function): registry key
+	Func        string
+	Params      []gparam
+	Ret         []LT
+	Named       []string            // named results, in order (for naked returns)
+	NamedTypes  map[string]LT       // their Lean types
+	Group       string              // Generated/Code/<Group>.lean
+	Calls       map[string]callSpec // rendered callee -> oracle value and/or recorded effect
+	Idents      map[string]V        // package-level variables read by the unit (oracles)
+	EffectsOn   bool
+	Alias       map[string]aliasSpec
+	MapKeys     map[string]string // rendered map expression ranged over -> oracle parameter holding its keys
+	MapKeyOrder []string          // the same by position: the oracle of the 1st, 2nd, … range over a Go map (source order)
+	JoinIfs     bool              // translate jump-free `if`s as joins instead of duplicating the continuation
+	StoreOn     bool              // the unit threads an explicit store value (Tables/GoStore.lean)
+	TypeNames   map[string]LT     // per-unit Go type -> Lean type (for map literals), overriding goTypeNames
+	Inline      string            // helpers translated on demand: the function as a lambda term, used at the call sites
+	Mutates     []bool            // … and, per value parameter, whether the helper writes through it
+	failed      string            // set when the unit turned out not to be translatable
 }
 
 // callSpec: a call into the store, the bank, the hooks or another keeper function.
@@ -354,7 +361,7 @@ func init() {
 				"k.Bid.Set":                    {Effect: "bidSet", Args: []int{1, 2}},
 				"k.SetMatchedBidsLen":          {Effect: "matchedLenSet", Args: []int{1, 2}},
 			},
-			MapKeys: map[string]string{"reservedAmtByBidder": "keysR__", "matchRes.MatchResultByBidder": "keysM__"}},
+			MapKeyOrder: []string{"keysR__", "keysM__"}},
 	)
 }
 
@@ -368,7 +375,7 @@ func init() {
 				"k.BeforeSellingCoinsAllocated": {Effect: "beforeSellingCoinsAllocated", Args: []int{1, 2, 3}},
 				"k.bankKeeper.InputOutputCoins": {Effect: "inputOutputCoins", Args: []int{1, 2}},
 			},
-			MapKeys: map[string]string{mapExpr: "keys__"}}
+			MapKeyOrder: []string{"keys__"}}
 	}
 	units = append(units,
 		pay("AllocateSellingCoin", "AllocateSellingCoin", "mInfo.AllocationMap"),
